@@ -1,9 +1,25 @@
-"""Entry point (kept outside the package so that no module is loaded twice)."""
+"""Entry point (kept outside the package so that no module is loaded twice).
+
+Exit status: 0 held, 10 VIOLATION (mapped to 1 by ./check), 3 harness error. An exception that escapes
+(even one raised because stdout cannot be written) is a harness error, never a violation.
+"""
 import os
 import sys
 
 sys.path.insert(0, os.path.dirname(os.path.abspath(__file__)))
-from sim.cli import main  # noqa: E402
 
 if __name__ == "__main__":
-    sys.exit(main(sys.argv[1:]))
+    try:
+        from sim.cli import main
+
+        rc = main(sys.argv[1:])
+        sys.stdout.flush()
+    except SystemExit as e:
+        rc = e.code if isinstance(e.code, int) else 3
+    except BaseException as e:  # noqa: BLE001
+        try:
+            print(f"HARNESS-ERROR: {type(e).__name__}: {e}", flush=True)
+        except Exception:  # noqa: BLE001
+            pass
+        os._exit(3)
+    sys.exit({0: 0, 1: 10}.get(rc, 3))
